@@ -735,3 +735,70 @@ def rule_cursor_pair(prog, res, la, rule="R-CURSOR-PAIR"):
                                  "%s moves %s position to the start of the ring without storing the lap on that path: the cursor now claims an offset in a lap it has already finished, and the next comparison with the writer treats unread data as overrun (or read data as new)"
                                  % (f.name, who))
     return n
+
+
+CURSORS = {
+    "hold": {CYC: ("channel", "holds.cycles"), POS: ("channel", "holds.pos")},
+    "reader": {CYC: ("channel_reader", "cycle"), POS: ("channel_reader", "pos")},
+    "writer": {CYC: ("channel", "cycle"), POS: ("channel", "head")},
+}
+
+
+def rule_cursor_copy(prog, res, la, rule="R-CURSOR-COPY"):
+    """A cursor is a (lap, position) pair.  When one component of cursor A is
+    assigned from the same component of cursor B, the other component of A is
+    assigned from the other component of B on every path through that
+    statement: copying half a cursor labels a position with the wrong lap."""
+    n = 0
+    comp = {}
+    for cname, d in CURSORS.items():
+        for dim, key in d.items():
+            comp[key] = (cname, dim)
+    for f in channel_functions(prog):
+        if la.is_ctor_dtor(f, ("channel", "lock")):
+            continue
+        al = la.aliases(f)
+
+        def src_of(rhs):
+            r = ir.strip(rhs)
+            if not isinstance(r, dict) or r.get("k") not in ("mem", "deref", "idx"):
+                return None
+            k = la.lvalue_key(f, r, al)
+            return comp.get(k)
+        copies = []
+        for b, i, s in f.all_stmts():
+            for lv, op, rhs, w in ir.writes_of(s):
+                if op != "=":
+                    continue
+                dk = comp.get(la.lvalue_key(f, lv, al))
+                sk = src_of(rhs) if rhs is not None else None
+                if dk and sk and dk[0] != sk[0] and dk[1] == sk[1]:
+                    copies.append((b.id, i, s, dk, sk))
+        for bid, i, s, (dc, dd), (sc, sd) in copies:
+            n += 1
+            res.touched(f)
+            other = POS if dd == CYC else CYC
+            want_dst, want_src = CURSORS[dc][other], CURSORS[sc][other]
+
+            def partner(ss, want_dst=want_dst, want_src=want_src, sc=sc, other=other):
+                for lv2, op2, rhs2, w2 in ir.writes_of(ss):
+                    if op2 == "=" and la.lvalue_key(f, lv2, al) == want_dst and rhs2 is not None:
+                        # the start of the writer's lap is a position of that lap
+                        if sc == "writer" and other == POS and ir.is_const(rhs2, 0):
+                            return True
+                        r2 = ir.strip(rhs2)
+                        if isinstance(r2, dict) and r2.get("k") in ("mem", "deref", "idx") and \
+                                la.lvalue_key(f, r2, al) == want_src:
+                            return True
+                return False
+            blk = f.blocks[bid]
+            same_block = any(partner(x) for x in blk.stmts)
+            after, _ = paths.all_paths_pass(f, (bid, i), "exit", partner)
+            inst = "%s:%s %s.%s := %s.%s comes with the %s" % (f.name, s.get("line"), dc, dd, sc, sd, other)
+            if same_block or after:
+                res.oblige(rule, inst, True, "%s.%s := %s.%s on the same path" % (dc, other, sc, other), f.loc(s))
+            else:
+                res.fail(rule, inst, "%s|%s|%s.%s<-%s" % (rule, f.name, dc, dd, sc), f.loc(s),
+                         "%s copies the %s of the %s cursor into the %s cursor without copying its %s on the same path: the %s cursor now pairs a %s of one lap with the lap count of another (after a partial release the next map sees an impossible cursor and skips unread data)"
+                         % (f.name, dd, sc, dc, other, dc, POS))
+    return n
